@@ -2,7 +2,8 @@
 
 Theorem side (coq/c08, project Coercion.C08 on top of the frozen engine core coq/engine):
   MonC08.v      the formal statement of the property over an observed trace (no proofs):
-                  mon_persist   (a) EvStart a => durable image shows a (Running, n), n = invocations of this run so far;
+                  mon_persist   (a) EvStart a => durable image shows a (Running, n), n = invocations of this run so far,
+                                    and the sequence of a sequence action durably Running;
                                 (b) every attempt's result is durable (write (Running, n+1, lastok = outcome ok) on top of
                                     (Running, n)) before the next attempt, the next action of the sequence, the terminal
                                     write; a timed-out attempt may be recorded while the plugin is still inside (End owed);
@@ -16,7 +17,9 @@ Theorem side (coq/c08, project Coercion.C08 on top of the frozen engine core coq
                                 per object that returned but is not logged yet).
   props/C08.v   c08_persist_before_act (every shape, every accepted trace: mon_persist holds), its readable corollaries
                 c08_start_durably_running and c08_release_after_terminal_write, image_monotone (no step of the automaton)
-                and image_monotone_trace, c08_no_visible_regress (mon_reads under the explicit read hypothesis).
+                and image_monotone_trace, c08_no_visible_regress (mon_reads under the explicit read hypothesis) and
+                c08_no_visible_regress_checked (accepted /\ mon_explained => mon_reads: the hypothesis follows from
+                the condition that is evaluated on every real trace).
                 Proof: product invariant R (automaton state x monitor state) + reachable-state invariant binv, kept by
                 every epsilon-move, every handler and the stutter rule (AutoLemmas.product_run).
 Correspondence (every run): real engine traces (profiles persist / attempts / mixed, a poller calling Workstream.Plan every
